@@ -87,7 +87,7 @@ def ulp_close(x, q, ulps=4):
     return abs(fx - q) <= ulps * u
 
 
-def value_matches(m, v, ulps=4):
+def value_matches(m, v, ulps=4, rel=0.0):
     """does the model value (parsed sexp) describe the Python value?
     returns True / False / None (None = the model does not model this value: `(o …)`)"""
     error = _xlerror()
@@ -102,7 +102,11 @@ def value_matches(m, v, ulps=4):
         return isinstance(v, int) and not isinstance(v, bool) and v == int(m[1])
     if k == 'f':
         q = Fraction(int(m[1]), int(m[2]))
-        return isinstance(v, float) and ulp_close(v, q, ulps)
+        if not isinstance(v, float):
+            return False
+        if ulp_close(v, q, ulps):
+            return True
+        return rel > 0 and not (math.isnan(v) or math.isinf(v)) and abs(Fraction(v) - q) <= Fraction(rel) * max(1, abs(q))
     if k == 'b':
         return isinstance(v, bool) and v == (m[1] == '1')
     if k == 's':
@@ -114,13 +118,14 @@ def value_matches(m, v, ulps=4):
             return False
         d = v - D1900
         us = (d.days * 86400 + d.seconds) * 1000000 + d.microseconds
-        return abs(us - int(m[1])) <= 2
+        # double arithmetic on serials: ~2^-50 relative error on the microsecond count
+        return abs(us - int(m[1])) <= 2 + abs(us) // (1 << 49)
     if k == 'a':
         if not isinstance(v, list) or len(v) != len(m) - 1:
             return False
         res = True
         for mm, vv in zip(m[1:], v):
-            r = value_matches(mm, vv, ulps)
+            r = value_matches(mm, vv, ulps, rel)
             if r is False:
                 return False
             if r is None:
@@ -129,7 +134,7 @@ def value_matches(m, v, ulps=4):
     return False
 
 
-def record_matches(model_rec, rec, ulps=4):
+def record_matches(model_rec, rec, ulps=4, rel=0.0):
     """model `(rec <value|none> <errtag|none>)` vs the dict returned by Parser.parse"""
     if not (isinstance(model_rec, list) and len(model_rec) == 3 and model_rec[0] == 'rec'):
         return False
@@ -140,7 +145,7 @@ def record_matches(model_rec, rec, ulps=4):
         return False
     if mres == 'none':
         return rec['result'] is None
-    return value_matches(mres, rec['result'], ulps)
+    return value_matches(mres, rec['result'], ulps, rel)
 
 
 def env_wire(variables=None, fns=None, cells=None, ranges=None):
